@@ -456,7 +456,11 @@ fn eval_node_test(
 ) -> error::Result<bool> {
     match test {
         expr::NodeTest::Name(name) => match name {
-            expr::NameTest::All => Ok(true),
+            // `*` selects the nodes of the principal node type of the axis: elements, on the attribute and
+            // namespace axes attributes and namespace nodes (which report NodeType::Attribute) -- never text,
+            // comments or processing instructions
+            expr::NameTest::All => Ok(node.node_type() == dom::NodeType::Element
+                || node.node_type() == dom::NodeType::Attribute),
             expr::NameTest::Namespace(prefix) => {
                 let uri_a = context
                     .get_ns_uri(Some(prefix))
